@@ -87,7 +87,15 @@ class BuckGophermapHandler(BaseHandler):
                         # it in for gopher+.
                         # (URL: selectors are not paths: root + "URL:..." would
                         # name a sibling of the document root.)
-                        if selector[0] == "/" and self.vfs.exists(selector):
+                        # Selectors that the request filter would refuse (..,
+                        # //, ...) are not looked up either.
+                        if (
+                            selector[0] == "/"
+                            and BaseHandler(
+                                selector, "", self.protocol, self.config, None, self.vfs
+                            ).isrequestsecure()
+                            and self.vfs.exists(selector)
+                        ):
                             entry.populatefromvfs(self.vfs, selector)
                     self.entries.append(entry)
                 else:  # Info line
